@@ -296,8 +296,11 @@ OkPages(c) == {i \in PageReqs(c) : wire[i].resp.ok}
 PagedOp(op) == op \in Scrolls \cup Paginated
 PrevIn(X, j) == LET B == {i \in X : i < j} IN IF B = {} THEN 0 ELSE SetMax(B)
 LastHit(p) == p.from + p.cnt - 1
-RECURSIVE SumTook(_)
-SumTook(X) == IF X = {} THEN 0 ELSE LET i == SetMin(X) IN wire[i].resp.took + SumTook(X \ {i})
+(* sum of `took` over the answered page requests of call c among wire[1..k]  (written without set arguments: TLC does not
+   cache lazily evaluated arguments inside primed formulas) *)
+RECURSIVE SumTook(_, _)
+SumTook(c, k) == IF k = 0 THEN 0
+                 ELSE (IF wire[k].call = c /\ IsPageReq(k) /\ wire[k].resp.ok THEN wire[k].resp.took ELSE 0) + SumTook(c, k - 1)
 
 (* every hit of the result set is fetched at most once and in order: the pages of one call are contiguous *)
 InOrderOnceOn(J) ==
@@ -360,6 +363,20 @@ CompleteOn(C) ==
     \A c \in C : (PagedOp(calls[c].op) /\ calls[c].st = "ok" /\ Rel(scn) = "eq" /\ OkPages(c) # {}
                   /\ (scn.pages = 0 \/ Cardinality(PageReqs(c)) < scn.pages)) =>
         LET p == wire[SetMax(OkPages(c))].resp IN p.cnt = 0 \/ LastHit(p) >= scn.n
+(* how many pages a successful call that started at the first hit fetches.  paginated-search trusts the reported total
+   (a lower bound stops it early) and never fetches an empty page except for an empty result set; a scroll stops after the
+   first page if the reported total is smaller than the page size, otherwise only at the first EMPTY page, which it counts *)
+Ceil(a, b) == (a + b - 1) \div b
+ExpectedPages(op) ==
+    LET sz == IF scn.size = 0 THEN scn.dsize ELSE scn.size
+        T == Total(scn)
+        lim(x) == IF scn.pages = 0 THEN x ELSE Min(scn.pages, x)
+    IN IF op \in Scrolls
+       THEN (IF (scn.size # 0 /\ T < scn.size) \/ T = 0 THEN 1 ELSE lim(Ceil(scn.n, sz) + 1))
+       ELSE lim(Max(1, Ceil(T, sz)))
+PageCountOn(C) ==
+    \A c \in C : (PagedOp(calls[c].op) /\ calls[c].st = "ok" /\ PageReqs(c) # {}) =>
+        (wire[SetMin(PageReqs(c))].req.sa = 0 => Cardinality(PageReqs(c)) = ExpectedPages(calls[c].op))
 (* the scroll context is ALWAYS cleared, also when a scroll request raised (unless clear_scroll itself failed) *)
 ScrollClearedOn(C) ==
     \A c \in C : calls[c].st # "run" =>
@@ -377,7 +394,7 @@ MetaFaithfulOn(C) ==
         IN CASE PagedOp(calls[c].op) ->
                     /\ P # {} /\ m.w = Cardinality(P) /\ m.pages = m.w /\ m.unit = "pages"
                     /\ m.hits = f.total /\ m.rel = f.rel
-                    /\ m.tout = (\E i \in P : wire[i].resp.tout) /\ m.took = SumTook(P)
+                    /\ m.tout = (\E i \in P : wire[i].resp.tout) /\ m.took = SumTook(c, Len(wire))
              [] calls[c].op = "dsearch" ->
                     /\ P # {} /\ m.w = 1 /\ m.unit = "ops" /\ m.hits = f.total /\ m.rel = f.rel
                     /\ m.tout = f.tout /\ m.took = f.took
@@ -412,6 +429,7 @@ NothingAfterError == NothingAfterErrorOn(Wire)
 NoSearchOnClosedPit == NoSearchOnClosedPitOn(Wire)
 RequestShape == RequestShapeOn(Wire)
 Complete == CompleteOn(Calls)
+PageCount == PageCountOn(Calls)
 ScrollCleared == ScrollClearedOn(Calls)
 MetaFaithful == MetaFaithfulOn(Calls)
 NoSuccessOnFailure == NoSuccessOnFailureOn(Calls)
